@@ -86,8 +86,8 @@ def run(ctx):
             dims = list(obj['dims'])
             rho = build_rho(dims, obj['terms'])
             sdp = 0
-            if len(dims) == 2 and dims[0] * dims[1] <= 9 and nsdp < (4 if quick else 120):
-                sdp = 1 if quick else 2
+            if len(dims) == 2 and dims[0] * dims[1] <= 9 and nsdp < (4 if quick else 30):
+                sdp = 1 if (quick or dims[0] * dims[1] > 6) else 2      # k=3,4 extensions only on 2x2 and 2x3 (minutes per object on 3x3)
                 nsdp += 1
             ev = evaluate(ctx, rho, dims, sdp, 'sep')
             hist = beh[idx][1]['hist']
